@@ -18,6 +18,8 @@ struct Params {
     policy: u8,
     /// peer 0's connection accepts 7 bytes and then nothing until a later environment event re-opens it
     backpressure: bool,
+    /// socket type the raw peers announce: 0 DEALER, 1 REQ, 2 ROUTER (the three legal peers of a ROUTER)
+    peer_type: u8,
 }
 
 fn announced(kind: u8, p: usize) -> Option<Vec<u8>> {
@@ -43,7 +45,7 @@ fn scenario(pr: &Params) -> Verdict {
         // kind 6: an Identity property of length 0 on the wire (what libzmq peers without a routing id send):
         // the socket must assign a unique identity as if none had been announced
         let on_wire = if pr.ids[p] == 6 { Some(Vec::new()) } else { announced(pr.ids[p], p) };
-        c.send(&rc::handshake("DEALER", on_wire.as_deref()));
+        c.send(&rc::handshake(["DEALER", "REQ", "ROUTER"][pr.peer_type as usize % 3], on_wire.as_deref()));
         let mut mine = Vec::new();
         for j in 0..pr.msgs {
             let m: Vec<Vec<u8>> = if j % 2 == 0 {
@@ -139,7 +141,7 @@ fn scenario(pr: &Params) -> Verdict {
     let end = world::run(e3::HORIZON * (1 + n as u64 / 4));
     let mut v = Verdict::default();
     v.truncated = end != world::RunEnd::Quiescent;
-    let what = format!("ROUTER with peers {:?} (0=1-byte id, 1=255-byte id, 2=auto, 3=ids that are prefixes of one another, 4=255-byte ids differing in the last byte), {} messages each{}", pr.ids, pr.msgs, if pr.last_peer_leaves { ", last peer closes" } else if pr.backpressure { ", peer 0's connection accepting 7 bytes and then nothing for a while" } else { "" });
+    let what = format!("ROUTER with {} peers {:?} (0=1-byte id, 1=255-byte id, 2=auto, 3=ids that are prefixes of one another, 4=255-byte ids differing in the last byte), {} messages each{}", ["DEALER", "REQ", "ROUTER"][pr.peer_type as usize % 3], pr.ids, pr.msgs, if pr.last_peer_leaves { ", last peer closes" } else if pr.backpressure { ", peer 0's connection accepting 7 bytes and then nothing for a while" } else { "" });
     for p in world::panics() {
         v.violate("panic", format!("{}: {}", what, p));
     }
@@ -371,7 +373,7 @@ fn cancel_scenario(id_kind: u8, how: u8, big: bool, policy: u8) -> Verdict {
 }
 
 fn pj(p: &Params) -> Value {
-    json!({"ids": p.ids, "msgs": p.msgs, "last_peer_leaves": p.last_peer_leaves, "policy": p.policy, "backpressure": p.backpressure})
+    json!({"ids": p.ids, "msgs": p.msgs, "last_peer_leaves": p.last_peer_leaves, "policy": p.policy, "backpressure": p.backpressure, "peer_type": p.peer_type})
 }
 
 fn pf(v: &Value) -> Option<Params> {
@@ -381,6 +383,7 @@ fn pf(v: &Value) -> Option<Params> {
         last_peer_leaves: v["last_peer_leaves"].as_bool()?,
         policy: v["policy"].as_u64().unwrap_or(0) as u8,
         backpressure: v["backpressure"].as_bool().unwrap_or(false),
+        peer_type: v["peer_type"].as_u64().unwrap_or(0) as u8,
     })
 }
 
@@ -410,10 +413,18 @@ pub fn run(tier: Tier, replay: Option<String>) -> i32 {
     for ids in idsets {
         for leaves in [false, true] {
             for policy in 0..3u8 {
-                let pr = Params { ids: ids.clone(), msgs: 2, last_peer_leaves: leaves, policy, backpressure: false };
+                let pr = Params { ids: ids.clone(), msgs: 2, last_peer_leaves: leaves, policy, backpressure: false, peer_type: 0 };
                 let pr2 = pr.clone();
                 let bound = if ids.len() >= 3 { tier.pick(2, 3) } else { tier.pick(3, 4) };
                 jobs.push(e3::job(format!("C09/{:?}/{}/policy{}", ids, leaves, policy), pj(&pr), bound, tier.pick(600_000, 8_000_000), move || scenario(&pr2)));
+                // the other two legal peer types of a ROUTER
+                if ids.len() <= 2 && policy == 0 {
+                    for peer_type in 1..=2u8 {
+                        let pr = Params { peer_type, ..pr.clone() };
+                        let pr2 = pr.clone();
+                        jobs.push(e3::job(format!("C09/{:?}/{}/policy{}/peertype{}", ids, leaves, policy, peer_type), pj(&pr), tier.pick(1, 2), tier.pick(300_000, 3_000_000), move || scenario(&pr2)));
+                    }
+                }
                 if ids.len() == 2 && !leaves {
                     let pr = Params { backpressure: true, ..pr.clone() };
                     let pr2 = pr.clone();
@@ -426,7 +437,7 @@ pub fn run(tier: Tier, replay: Option<String>) -> i32 {
     for &n in tier.pick(&[17usize, 65, 130][..], &[17usize, 65, 130, 257, 520][..]) {
         for kind in [2u8, 5] {
             for policy in 0..3u8 {
-                let pr = Params { ids: vec![kind; n], msgs: 1, last_peer_leaves: false, policy, backpressure: false };
+                let pr = Params { ids: vec![kind; n], msgs: 1, last_peer_leaves: false, policy, backpressure: false, peer_type: 0 };
                 let pr2 = pr.clone();
                 jobs.push(e3::job(format!("C09/scale/{}peers/kind{}/policy{}", n, kind, policy), pj(&pr), 0, 1000, move || scenario(&pr2)));
             }
